@@ -2,6 +2,7 @@ import TantivyModel.Driver.Proto
 import TantivyModel.Model.Grammar.Chars
 import TantivyModel.Model.Grammar.CharsLenient
 import TantivyModel.Model.Grammar.Agree
+import TantivyModel.Model.Grammar.Printer
 /-!
 Line protocol of the C16 character layer.
 
@@ -77,6 +78,32 @@ def handleParseBoth (h : String) : String :=
   match textOfHex h with
   | some s => showOutcome (parseStrict s) ++ "|" ++ showLOutcome (parseLenient s) ++ "|" ++ showBool (featureFree s)
   | none => "bad-op"
+
+def parseOccTok : String → Option (Option Occur)
+  | "-" => some none | "s" => some (some .should) | "m" => some (some .must)
+  | "x" => some (some .mustNot) | _ => none
+
+def parseOpTok : String → Option (Option BinOp)
+  | "-" => some none | "o" => some (some .or) | "a" => some (some .and) | _ => none
+
+def parsePItem (s : String) : Option PItem :=
+  match s.splitOn "," with
+  | [op, occ, w, a, b] =>
+    match parseOpTok op, parseOccTok occ, textOfHex w, a.toNat?, b.toNat? with
+    | some op, some occ, some w, some a, some b => some ⟨op, occ, w, a, b⟩
+    | _, _, _, _, _ => none
+  | _ => none
+
+/-- `printl <lead> <occ> <word hex> <trailing> <items|->` → hex of `printList …` (the printer of
+    `C16_print_parse_operands`); items are `;` separated `op,occ,word hex,sp1,sp2` -/
+def handlePrintList (lead occ w k items : String) : String :=
+  match lead.toNat?, parseOccTok occ, textOfHex w, k.toNat? with
+  | some lead, some occ, some w, some k =>
+    let its : Option (List PItem) := if items == "-" then some [] else (items.splitOn ";").mapM parsePItem
+    match its with
+    | some its => hexStr (printList lead occ w its k)
+    | none => "bad-op"
+  | _, _, _, _ => "bad-op"
 
 def handleParse (h : String) : String :=
   match textOfHex h with
